@@ -190,7 +190,29 @@ pub fn from_none_some(site: u32) -> bool {
 }
 
 pub fn log(call: Call) {
-    WORLD.with(|w| w.borrow_mut().log.push(call))
+    WORLD.with(|w| w.borrow_mut().log.push(call));
+    // every seam call is a scheduler point when this parse runs on a simulated caller thread
+    seam_yield();
+}
+
+thread_local! {
+    static CUR_SCHED: std::cell::Cell<Option<(*const simcore::sched::Sched, usize)>> = std::cell::Cell::new(None);
+}
+
+/// Install (or remove) the scheduler of the simulated caller thread running on this OS thread. The
+/// pointer must stay valid until it is removed again.
+pub fn set_sched(s: Option<(*const simcore::sched::Sched, usize)>) {
+    CUR_SCHED.with(|c| c.set(s));
+}
+
+/// Scheduler point (no-op outside a group run).
+pub fn seam_yield() {
+    if let Some((s, tid)) = CUR_SCHED.with(|c| c.get()) {
+        unsafe {
+            (*s).note_step(tid);
+            (*s).yield_point(tid, std::thread::panicking());
+        }
+    }
 }
 
 pub fn token_span(pos: Pos) -> Option<Span> {
